@@ -228,9 +228,29 @@ def observe(prj, fi: FuncInfo, kind: str, v: int, subj_is_length: bool):
         return ("kept",) if kept else ("dropped",)
     args, self_obj = default_args(prj, fi, v)
     before = dict(self_obj.fields) if self_obj is not None else {}
+
+    def counters_of(obj):
+        """hard_to_maintain / unmaintainable as the object answers for them (fields, properties, a nested tally)"""
+        from ..absint import MiniInterp
+        out = {}
+        it_ = MiniInterp(prj, max_steps=20000)
+        for nm in ("hard_to_maintain", "unmaintainable"):
+            try:
+                val_ = it_.getattr(obj, nm, fi, None)
+            except (Unknown, PyRaise):
+                return None
+            if not isinstance(val_, int) or isinstance(val_, bool):
+                return None
+            out[nm] = val_
+        return out
+    named_before = counters_of(self_obj) if kind == "counters" and self_obj is not None else None
     run = run_site(prj, fi, args, self_obj=self_obj)
     if run.raised is not None:
         raise Unknown(f"raises {run.raised.name}")
+    if kind == "counters" and named_before is not None:
+        named_after = counters_of(self_obj)
+        if named_after is not None:
+            return tuple(sorted(k for k in named_after if named_after[k] != named_before[k]))
     if kind == "cells":
         res = run.result
         if not (isinstance(res, list) and len(res) == 4 and all(isinstance(x, int) and not isinstance(x, bool) for x in res)):
@@ -707,9 +727,23 @@ def _report_rows(ctx, prj, rep):
     for hard in (0, 2):
         for unm in (0, 5):
             me = new_instance(prj, rep.cls)
-            if "hard_to_maintain" not in me.fields or "unmaintainable" not in me.fields:
-                raise Unknown("CheckResult has no hard_to_maintain / unmaintainable counters")
-            me.fields["hard_to_maintain"], me.fields["unmaintainable"] = hard, unm
+            if "hard_to_maintain" in me.fields and "unmaintainable" in me.fields:
+                me.fields["hard_to_maintain"], me.fields["unmaintainable"] = hard, unm
+            else:
+                # the counters are not plain fields of the result object: it is filled through its own add(), with `hard` functions
+                # of 45 and `unm` functions of 90 lines, and no file list to print
+                from ..evalsite import measurement
+                from ..fsmodel import PathV
+                from ..absint import MiniInterp
+                addm = rep.cls.find_method("add")
+                if addm is None:
+                    raise Unknown("CheckResult has neither counter fields nor an add method")
+                ms_ = [measurement(45, f"h{i}", prj) for i in range(hard)] + [measurement(90, f"u{i}", prj) for i in range(unm)]
+                it0 = MiniInterp(prj, max_steps=100000)
+                it0.call(prj.func(addm.qual), [PathV("/w/proj/a.py"), ms_], {}, me)
+                for fld, val in list(me.fields.items()):
+                    if isinstance(val, list) and val and fld != "tally":
+                        me.fields[fld] = []        # nothing to list: only the summary line is looked at
             run = run_site(prj, rep, [], self_obj=me)
             if run.raised is not None:
                 raise Unknown(f"raises {run.raised.name}")
